@@ -66,9 +66,11 @@ def TVal.WF : TVal → Prop
 def TVals.WF : TVals → Prop
   | .nil => True
   | .cons v vs => v.WF ∧ vs.WF
+  | .skip vs => vs.WF
 def TFields.WF : TFields → Prop
   | .nil => True
   | .cons name ro v fs => ValidWord name ∧ (ro = true → ∃ s, v = .scalar s) ∧ v.WF ∧ fs.WF
+  | .skip name fs => ValidWord name ∧ fs.WF
 end
 
 /-- The option sets whose output is documented as re-readable: comments only together with
